@@ -295,6 +295,21 @@ func TestFrameHelpers(t *testing.T) {
 			OpCode: ws.OpCode(rapid.IntRange(0, 15).Draw(t, "op")),
 			Length: int64(n),
 		}
+		// The helpers work on f.Payload; Header.Length is carried through as it
+		// is, also when the frame value was built with a Length that does not
+		// match (a literal with Length left 0, a stale or announced length).
+		lenMode := "consistent"
+		switch k := rapid.IntRange(0, 9).Draw(t, "lengthMode"); {
+		case k == 6:
+			lenMode = "zero"
+			hdr.Length = 0
+		case k == 7 && n > 0:
+			lenMode = "smaller"
+			hdr.Length = int64(rapid.IntRange(0, n-1).Draw(t, "announced"))
+		case k >= 8:
+			lenMode = "larger"
+			hdr.Length = int64(n + rapid.IntRange(1, 16).Draw(t, "announcedExtra"))
+		}
 		unmask := api >= 4
 		copying := api == 0 || api == 1 || api == 4
 		variant := "plain"
@@ -316,6 +331,7 @@ func TestFrameHelpers(t *testing.T) {
 		seed := rapid.Int64().Draw(t, "randSeed")
 		hx.Eval()
 		hx.Class(fmt.Sprintf("frame/%s/%s", apiNames[api], variant))
+		hx.Class(fmt.Sprintf("frame/%s/headerLength=%s", apiNames[api], lenMode))
 		hx.Class("frame/len=" + lenClass(n))
 
 		w := newWin(content, a)
@@ -356,13 +372,16 @@ func TestFrameHelpers(t *testing.T) {
 		}
 
 		if n >= 8 {
-			hx.NonTrivial(hx.Hash("frame", api, n, a, variant), func() interface{} {
-				return map[string]interface{}{"api": name, "len": n, "align": a, "key": fmt.Sprintf("%x", used), "variant": variant}
+			hx.NonTrivial(hx.Hash("frame", api, n, a, variant, lenMode), func() interface{} {
+				return map[string]interface{}{"api": name, "len": n, "align": a, "key": fmt.Sprintf("%x", used), "variant": variant, "header_length": hdr.Length}
 			})
 		}
 
 		// payload
 		want := ref.Mask(content, used, 0)
+		if len(out.Payload) != n {
+			t.Fatalf("%s: result payload has %d bytes, the frame's Payload has %d (Header.Length=%d)", name, len(out.Payload), n, hdr.Length)
+		}
 		if !bytes.Equal(out.Payload, want) {
 			t.Fatalf("%s\nkey=%x len=%d align=%d", diffMsg(name+": result payload differs from the XOR with the header key", out.Payload, want), used, n, a)
 		}
